@@ -273,6 +273,25 @@ pub fn run_c18(ctx: &mut Ctx, _replay: Option<&[String]>) {
             ctx.emit(&format!("c18 beh {} {} {}", name, sm(&h), calls_str(&calls)),
                 &format!("{} | {}", built.join(" "), direct.join(" ")), true, &tags);
         }
+        // ... nor on the matrix: checks of weight 1 ("this bit is 0") and of weight 0 (results or panics must coincide)
+        for _ in 0..ctx.scale(6, 300) {
+            let (mut h, fam) = gen_matrix(&mut rng, 16);
+            let mut tags = vec![fam, "behaviour-matrix-with-checks-of-weight-0-or-1"];
+            for _ in 0..rng.range(1, 2) {
+                let r = rng.below(h.num_rows());
+                h.clear_row(r);
+                if rng.chance(3, 4) { h.insert(r, rng.below(h.num_cols())); }
+            }
+            let calls = gen_calls(&mut rng, &h, 2, &mut tags);
+            let mut d = imp.build_decoder(h.clone());
+            let built = run_history(&mut d, &calls);
+            let direct = match expected_decoder(&name, h.clone()) {
+                Some(mut e) => run_history(&mut e, &calls),
+                None => vec!["no-expected-decoder".to_string()],
+            };
+            ctx.emit(&format!("c18 beh {} {} {}", name, sm(&h), calls_str(&calls)),
+                &format!("{} | {}", built.join(" "), direct.join(" ")), true, &tags);
+        }
         // "behaves exactly like" has no restriction on the input: LLR vectors with NaN / +-inf entries (results or panics must coincide)
         for _ in 0..ctx.scale(6, 300) {
             let (h, fam) = gen_matrix(&mut rng, 20);
